@@ -5,7 +5,7 @@
 -/
 import SymfcModel.Model.Inst
 import SymfcModel.Lemmas.Chain
-import SymfcModel.Lemmas.Cutoff
+import SymfcModel.Lemmas.CutoffBasic
 import SymfcModel.Lemmas.Cell3
 namespace Symfc
 
